@@ -171,6 +171,31 @@ def dispatch(E, c, args):
         if t == "Option":
             return NONE()
     # ------------------------------------------------------------ comparisons
+    if tc and last_seg(tc[0]) == "Option" and tc[1] in ("Ord", "PartialOrd", "PartialEq") and tc[2] in ("cmp", "partial_cmp", "eq", "ne") and len(args) == 2:
+        # std: None < Some(_); Some(a) vs Some(b) compares a with b (payloads by identity / the crate's own impl)
+        a, b = E.force_arg(deref(E, args[0])), E.force_arg(deref(E, args[1]))
+        if isinstance(a, VEnum) and isinstance(b, VEnum) and a.ty == "Option" and b.ty == "Option":
+            k = find_top(tc[0], "<")
+            inner = tc[0][k + 1:match_close(tc[0], k)] if k > 0 else "?"
+            if a.variant != b.variant or a.variant == "None":
+                o = "Equal" if a.variant == b.variant else ("Less" if a.variant == "None" else "Greater")
+                if tc[2] in ("eq", "ne"):
+                    return VBool((o == "Equal") == (tc[2] == "eq"))
+                return VEnum("Ordering", o, []) if tc[2] == "cmp" else some(VEnum("Ordering", o, []))
+            xa, xb = deref(E, a.fields[0]), deref(E, b.fields[0])
+            from engine import VLazy as _VL
+            if isinstance(xa, (_VL, VOpaque)) and isinstance(xb, (_VL, VOpaque)):
+                ua, ub = E.as_u(xa), E.as_u(xb)
+                if tc[2] in ("eq", "ne"):
+                    return VBool(ua == ub if tc[2] == "eq" else ua != ub)
+                lt = z3.Function("derived_ord", E.U, E.U, z3.BoolSort())
+                E.pc.append(z3.Not(z3.And(lt(ua, ub), lt(ub, ua))))
+                i = E.choose([ua == ub, z3.And(ua != ub, lt(ua, ub)), z3.And(ua != ub, z3.Not(lt(ua, ub)))], "option payload order")
+                if i == 2:
+                    E.pc.append(lt(ub, ua))
+                o = VEnum("Ordering", ["Equal", "Less", "Greater"][i], [])
+                return o if tc[2] == "cmp" else some(o)
+            return E.call("<%s as %s>::%s" % (inner, tc[1], tc[2]), [VRef(Cell(xa, "opt_a")), VRef(Cell(xb, "opt_b"))])
     if tc and tc[1] in ("PartialEq", "PartialEq<u64>") or (tc and tc[1] and tc[1].startswith("PartialEq") and tc[2] in ("eq", "ne")):
         if tc[2] in ("eq", "ne"):
             a, b = deref(E, args[0]), deref(E, args[1])
